@@ -11,6 +11,7 @@ must restore the array, altered pieces must be refused, arithmetic keeps annotat
 """
 import copy
 import itertools
+import os
 from fractions import Fraction
 
 import numpy as np
@@ -44,17 +45,27 @@ def enc_index(idx):
     return 'tup:' + ';'.join(enc_item(i) for i in idx['items'])
 
 
-def py_item(it):
+def py_item(it, rep=None):
+    """`rep`: another spelling of the SAME index value (hardening item 1): slice bounds / list elements as NumPy
+    scalars (`npint`), integer ndarrays of another integer dtype (`adt`).  Bare integer entries stay Python ints
+    (a NumPy integer entry is refused loudly by normalize_index: TypeError / ValueError, see notes/C11.md)."""
     k = it[0]
+    rep = rep or {}
     if k == 'i':
-        return int(it[1])
+        # `npidx`: only generated once notes/C11_fix_4.diff is accepted (C11.NPIDX), see notes/C11.md §9
+        return np.int64(it[1]) if rep.get('npidx') else int(it[1])
     if k == 's':
+        if rep.get('npint'):
+            return slice(*[v if v is None or abs(v) >= 2 ** 62 else np.int64(v) for v in it[1:4]])
         return slice(it[1], it[2], it[3])
     if k == 'L':
-        return [int(v) for v in it[1]]
+        return [np.int64(v) for v in it[1]] if rep.get('npint') else [int(v) for v in it[1]]
     if k == 'B':
-        return [bool(v) for v in it[1]]
+        return [np.bool_(v) for v in it[1]] if rep.get('npint') else [bool(v) for v in it[1]]
     if k == 'A':
+        dt = rep.get('adt')
+        if dt and (not dt.startswith('u') or all(v >= 0 for v in it[1])):
+            return np.array(it[1], dtype=dt)
         return np.array(it[1], dtype=np.int64)
     if k == 'M':
         return np.array([bool(v) for v in it[1]], dtype=bool)
@@ -63,10 +74,23 @@ def py_item(it):
     return Ellipsis
 
 
-def py_index(idx):
+def py_index(idx, rep=None):
     if idx['t'] == 'one':
-        return py_item(idx['items'][0])
-    return tuple(py_item(i) for i in idx['items'])
+        return py_item(idx['items'][0], rep)
+    return tuple(py_item(i, rep) for i in idx['items'])
+
+
+def same_index(a, b):
+    """index objects equal in type and value (the library must not modify the index it was given)."""
+    if type(a) is not type(b):
+        return False
+    if isinstance(a, tuple) or isinstance(a, list):
+        return len(a) == len(b) and all(same_index(x, y) for x, y in zip(a, b))
+    if isinstance(a, np.ndarray):
+        return a.dtype == b.dtype and a.shape == b.shape and bool(np.all(a == b))
+    if isinstance(a, slice):
+        return (a.start, a.stop, a.step) == (b.start, b.stop, b.step)
+    return a is b or a == b
 
 
 def show_index(idx):
@@ -171,10 +195,26 @@ def canon_pd(a, data=True):
     """Canonical line of a real PipelineData."""
     fs = Fraction(float(a.fs))
     ts = []
-    for tj in np.asarray(a.t).tolist():
-        m = round(Fraction(tj) * fs)
-        r = Fraction(m) / fs
-        ts.append(frac(r) if float(r) == tj else repr(tj))
+    tarr = np.asarray(a.t, dtype=float)
+    P_, Q_ = fs.numerator, fs.denominator
+    if tarr.size > 256 and fs > 0 and np.all(np.isfinite(tarr)) and float(np.max(np.abs(tarr))) * float(fs) < 2.0 ** 52:
+        # long arrays: the same test vectorised.  m and fs are exact binary64 numbers, so the float quotient m / fs is the
+        # correct rounding of the exact rational m / fs, i.e. float(Fraction(m) / fs)
+        import math
+        m_arr = np.rint(tarr * float(fs))
+        good = (m_arr / float(fs)) == tarr
+        for tj, m, ok in zip(tarr.tolist(), m_arr.astype(np.int64).tolist(), good.tolist()):
+            if ok:
+                num = m * Q_
+                g = math.gcd(num, P_)
+                ts.append(f'{num // g}/{P_ // g}')
+            else:
+                ts.append(repr(tj))
+    else:
+        for tj in tarr.tolist():
+            m = round(Fraction(tj) * fs)
+            r = Fraction(m) / fs
+            ts.append(frac(r) if float(r) == tj else repr(tj))
     ch = a.channel
     if isinstance(ch, (list, tuple)):
         ch = [None if c is None else str(c) for c in ch]
@@ -186,6 +226,16 @@ def canon_pd(a, data=True):
     d = ilist(np.asarray(a).ravel().tolist()) if data else '*'
     return (f"arr shape={ilist(a.shape)} s0={int(a.s0)} fs={frac(fs)} ch={enc_ch(ch)} md={enc_md(md)} "
             f"nch={int(a.n_channels)} nep={'-' if nep is None else int(nep)} t={','.join(ts) if ts else '-'} data={d}")
+
+
+def _frac_of(x):
+    a, sep, b = x.partition('/')
+    if sep:
+        try:
+            return Fraction(int(a), int(b))
+        except ValueError:
+            pass
+    return Fraction(x)
 
 
 def parse_line(line):
@@ -206,7 +256,7 @@ def parse_line(line):
             return [] if s[2:] == '-' else [x for x in s[2:].split(',')]
         return s[2:]
     return {'shape': nums(f['shape']), 's0': int(f['s0']), 'fs': Fraction(f['fs']), 'ch': ch(f['ch']),
-            'md': md(f['md']), 't': [] if f['t'] == '-' else [Fraction(x) for x in f['t'].split(',')],
+            'md': md(f['md']), 't': [] if f['t'] == '-' else [_frac_of(x) for x in f['t'].split(',')],
             'data': None if f['data'] == '*' else nums(f['data'])}
 
 
@@ -223,6 +273,19 @@ def oracle_get(pre, idx, line):
         if per is not None and not any(it[0] == 'n' for it in items) and all(it == FULL for it in per[:-1]) \
                 and per[-1][0] == 's' and (per[-1][3] is None or per[-1][3] >= 1):
             return f'{what}: a plain time slice raised {line[4:]}'
+        # "integer, slice, list and boolean indexing of the channel or epoch axis SELECTS the matching labels": an
+        # expression NumPy accepts, made of slices (step >= 1), integers and at most one list / mask on the channel or
+        # epoch axis (ndarrays only as the bare index: inside a tuple the code refuses them loudly, see notes), with
+        # a slice on the time axis, must not be refused.
+        if per is not None and nd >= 2 and not any(it[0] == 'n' for it in items) and per[-1][0] == 's' \
+                and all(it[0] != 's' or it[3] is None or it[3] >= 1 for it in per) \
+                and sum(1 for it in items if is_fancy(it)) <= 1 \
+                and all(it[0] in 'siLBe' or (it[0] in 'AM' and idx['t'] == 'one') for it in items):
+            try:
+                np.empty(tuple(pre['shape']))[py_index(idx)]
+            except Exception:
+                return None
+            return f'{what}: NumPy selects these rows, the annotated array raised {line[4:]}'
         return None
     if line.startswith('scalar'):
         return None
@@ -342,6 +405,24 @@ def same_annot(a, b, data=True):
     return [k for k in keys if a[k] != b[k]]
 
 
+def _ipadd(a):
+    b = a.copy()
+    b += 1
+    return b
+
+
+FIN = {
+    'add': lambda a: a + 1, 'mul': lambda a: a * 2.0, 'neg': lambda a: -a, 'copy': lambda a: a.copy(),
+    'astype': lambda a: a.astype('int'), 'gt': lambda a: a > 3, 'abs': lambda a: np.abs(a), 'self': lambda a: a + a,
+    # hardening: further arithmetic / copies / casts
+    'astype32': lambda a: a.astype(np.float32), 'astypebool': lambda a: a.astype(bool), 'astypekw': lambda a: a.astype(dtype='int16', copy=True),
+    'view': lambda a: a.view(), 'div': lambda a: a / 2, 'radd': lambda a: np.ones(a.shape[-1]) + a, 'rsub': lambda a: 1 - a,
+    'pycopy': lambda a: copy.copy(a), 'deepcopy': lambda a: copy.deepcopy(a), 'ipadd': _ipadd, 'clip': lambda a: np.clip(a, 0, 1),
+    'npscalar': lambda a: a * np.float32(2), 'square': lambda a: a ** 2,
+}
+FIN_OLD = ['add', 'mul', 'neg', 'copy', 'astype', 'gt', 'abs', 'self']
+
+
 class C11(Spec):
     PROP = 'C11'
     MODEL = 'pdata'
@@ -366,7 +447,12 @@ class C11(Spec):
             'length <= 2 and every boolean mask of length N-1..N+1 as list and ndarray on the channel and epoch axes; '
             '(iii) split at every cut in [-N-3,N+3] (+ two-cut splits) and concat on each axis, altered pieces; '
             '(iv) seeded random chains of 1-3 index expressions from the whole grammar (Ellipsis, newaxis, several '
-            'lists) with arithmetic/copy/astype in between. Non-trivial = the case reaches a result array whose shape '
+            'lists) with arithmetic/copy/astype in between; (v) hardening: the same arguments spelled as NumPy scalars / '
+            'other integer dtypes / data dtypes and memory layouts / tuple labels / positional, keyword, default '
+            'constructor and concat arguments; slice bounds and steps up to 10^20 / 2^40, 2^16+3 samples, 3000 channels, '
+            '2500 epochs, s0 beyond 2^31 and 2^45, 300 pieces; the same expression twice and the source looked at '
+            'afterwards; split-concat-split-concat, nested and single-piece concats; label / metadata lists overwritten in '
+            'place by the caller (other arrays must keep theirs); two arrays differing in one parameter. Non-trivial = the case reaches a result array whose shape '
             'or annotations differ from the source, or an exception; distinct = distinct case hash.')
     exhaustive_note = {
         'quick': 'slices: all start/stop in [-5,5] u {None}, step in {None,1,2,3}, axis length 0..3, each axis/position; '
@@ -473,7 +559,272 @@ class C11(Spec):
             return None
 
     # ---- cases ----------------------------------------------------------
+    REPS = {
+        'npint': [True], 'adt': ['int32', 'uint8', 'int16', 'intp', 'uint64'],
+        'dtype': ['float32', 'int16', 'int32', 'int64', 'uint16'], 'order': ['F', 'strided', 'rev', 'list'],
+        'chtuple': [True], 'fsrep': ['int', 'np64', 'np32'], 's0rep': ['np64'], 'ctor': ['pos', 'kw', 'defaults'],
+        'axis': ['name', 'default', 'pos'], 'seq': ['tuple'],
+    }
+
+    # bare integer entries as NumPy integers (x[np.int64(1)], x[:, np.int64(0)]): refused loudly by the code as found
+    # (TypeError / ValueError) although NumPy accepts them; generated only when this is switched on (after fix 4).
+    NPIDX = bool(os.environ.get('C11_NPIDX'))
+
+    def rand_rep(self, rng, c):
+        """another spelling of the same arguments (hardening item 1/2); the model lines do not change."""
+        keys = sorted(self.REPS)
+        rep = {}
+        for k in rng.sample(keys, rng.choice([1, 1, 2, 3, len(keys)])):
+            rep[k] = rng.choice(self.REPS[k])
+        if self.NPIDX and rng.random() < 0.5:
+            rep['npidx'] = True
+        if 'chtuple' in rep and any((o['op'] == 'set' and o.get('inplace')) or
+                                    (o['op'] == 'get' and any(it[0] == 'n' for it in o['idx']['items'])) for o in c['ops']):
+            # a tuple cannot be overwritten in place; with np.newaxis in the channel slot the code tests
+            # `isinstance(channel, list)`, so a tuple takes another (equally refused) path: not the same value there
+            del rep['chtuple']
+        return rep
+
     def cases(self, rng, tier):
+        frac_rep = 0.12 if tier == 'quick' else 0.2
+        for c in self.base_cases(rng, tier):
+            yield c
+            if c['kind'] != 'scale' and rng.random() < frac_rep:
+                cc = copy.deepcopy(c)
+                cc['rep'] = self.rand_rep(rng, cc)
+                cc['kind'] = 'repr:' + c['kind'].split('-')[0]
+                yield cc
+        for c in self.hardening_cases(rng, tier):
+            yield c
+            if c['kind'] != 'scale' and rng.random() < 0.5:
+                cc = copy.deepcopy(c)
+                cc['rep'] = self.rand_rep(rng, cc)
+                cc['kind'] = 'repr:' + c['kind'].split('-')[0]
+                yield cc
+
+    def hardening_cases(self, rng, tier):
+        quick = tier == 'quick'
+        get = lambda idx, k=0, j=1: {'op': 'get', 'k': k, 'j': j, 'idx': idx}
+        tup = lambda *items: {'t': 'tup', 'items': [list(i) for i in items]}
+        E_ = ['e']
+        sl = lambda a=None, b=None, st=None: ['s', a, b, st]
+        show = lambda k: {'op': 'show', 'k': k}
+
+        # ---- item 3: scale.  Far beyond the usual sizes: 2^16 (+3) samples, thousands of channels / epochs,
+        # first-sample indices beyond 2^31 and 2^53-ish, requests mixing tiny and huge bounds, hundreds of pieces.
+        n = 2 ** 16 + 3
+        big1 = self.mk_arr([n], s0=2 ** 31 - 2, fs=(27 * 2 ** 10, 1))
+        yield {'kind': 'scale', 'arrs': [big1], 'ops': [
+            get(tup(sl(n - 2)), 0, 1), get(tup(sl(-70000, 3)), 0, 2), get(tup(sl(65535, 65538)), 0, 3),
+            get({'t': 'one', 'items': [sl(None, None, 2 ** 14)]}, 0, 4), get(tup(E_, sl(2 ** 40)), 0, 5),
+            get(tup(sl(-2 ** 16 - 3, 2)), 0, 6), get(tup(sl(-2 ** 16 - 4, 2)), 0, 7), get(tup(sl(2 ** 16 + 2, 2 ** 16 + 9)), 0, 8)]}
+        # (results of that size are quadratic in the Lean model: the full-size restore is done on 2^12 + 3 samples)
+        mid = self.mk_arr([2 ** 12 + 3], s0=2 ** 31 - 2, fs=(27 * 2 ** 10, 1))
+        yield {'kind': 'scale', 'arrs': [mid], 'ops': [
+            get(tup(sl(1)), 0, 6), get(tup(sl(None, 1)), 0, 7), get(tup(sl(-5000, None)), 0, 8),
+            {'op': 'concat', 'j': 30, 'dim': 'time', 'ks': [7, 6], 'expect': 'restore:0'}]}
+        big2 = self.mk_arr([3, n // 3], s0=-(2 ** 33) - 5, fs=(27 * 2 ** 4, 1))
+        yield {'kind': 'scale', 'arrs': [big2], 'ops': [
+            get(tup(['L', [2, 0]], sl(-4, None)), 0, 1), get(tup(E_, sl(21000, 21847)), 0, 2),
+            get(tup(sl(1, 2), sl(21844, None)), 0, 3)]}
+        wide = self.mk_arr([3000, 2], s0=2 ** 45, fs=(27, 1))
+        yield {'kind': 'scale', 'arrs': [wide], 'ops': [
+            get(tup(sl(2990, 5000)), 0, 1), get(tup(['L', [2999, 0, -3000]]), 0, 2),
+            get({'t': 'one', 'items': [['M', [1 if i % 1000 == 7 else 0 for i in range(3000)]]]}, 0, 3),
+            get(tup(sl(None, 1500)), 0, 4), get(tup(sl(1500, None)), 0, 5),
+            {'op': 'concat', 'j': 30, 'dim': 'channel', 'ks': [4, 5], 'expect': 'restore:0'}]}
+        deep = self.mk_arr([2500, 1, 2], s0=0, fs=(27 * 64, 1))
+        yield {'kind': 'scale', 'arrs': [deep], 'ops': [
+            get({'t': 'one', 'items': [['B', [1 if i % 800 == 3 else 0 for i in range(2500)]]]}, 0, 1),
+            get({'t': 'one', 'items': [['A', [2499, 1, -2500]]]}, 0, 2), get(tup(sl(-3, None), E_), 0, 3),
+            get(tup(sl(None, 2499)), 0, 4), get(tup(sl(2499, None)), 0, 5),
+            {'op': 'concat', 'j': 30, 'dim': 'epoch', 'ks': [4, 5], 'expect': 'restore:0'}]}
+        # many pieces: every sample its own piece
+        m = 300
+        arr = self.mk_arr([2, m], s0=2 ** 31 - 150, fs=(27 * 8, 1))
+        yield self.split_case(arr, 1, 'time', list(range(1, m)), None)
+
+        # ---- item 4: slice bounds and steps far outside the array (still exact rates: steps 2^a * 3^(0|1))
+        HUGE = [2 ** 31 - 1, 2 ** 31, 2 ** 32 + 1, 2 ** 63 - 1, 2 ** 63, 2 ** 64 + 3, 10 ** 20]
+        STEPS = [6, 8, 12, 16, 1024, 2 ** 20, 3 * 2 ** 20, 2 ** 40]
+        for nd in (1, 2, 3):
+            for nt in (0, 1, 4):
+                shape = [2, 2, nt][-nd:]
+                for h in HUGE if not quick else rng.sample(HUGE, 3):
+                    for a_, b_ in [(h, None), (-h, None), (None, h), (None, -h), (-h, h), (h, -h), (1, h), (-h, -1)]:
+                        arr = self.mk_arr(shape, s0=rng.choice([-7, 0, 5, 2 ** 31]), fs=(27 * 64, 1))
+                        idx = tup(E_, sl(a_, b_, rng.choice([None, 1, 1, 2]))) if rng.random() < 0.7 or nd > 1 else \
+                            {'t': 'one', 'items': [sl(a_, b_)]}
+                        yield {'kind': 'huge-bound', 'arrs': [arr], 'ops': [get(idx)]}
+                    # the same bounds on the channel / epoch axis
+                    if nd > 1:
+                        arr = self.mk_arr([3] * nd, s0=5, fs=(27 * 64, 1))
+                        yield {'kind': 'huge-bound', 'arrs': [arr], 'ops': [get({'t': 'one', 'items': [sl(-h, h)]}, 0, 1),
+                                                                             get(tup(sl(1, h)), 0, 2), get(tup(sl(h, None), E_), 0, 3)]}
+                for st in STEPS:
+                    arr = self.mk_arr([2, 2, max(nt, 1) + 4][-nd:], s0=rng.choice([-7, 0, 5]), fs=(27 * 2 ** rng.randint(0, 10), rng.choice([1, 2, 4])))
+                    yield {'kind': 'huge-step', 'arrs': [arr], 'ops': [get(tup(E_, sl(rng.choice([None, 0, 1, -2]), None, st)))]}
+                    if nd > 1:
+                        yield {'kind': 'huge-step', 'arrs': [arr], 'ops': [get({'t': 'one', 'items': [sl(None, None, st)]})]}
+            # split at cuts far outside the array
+            for h in HUGE[:2] + HUGE[-1:]:
+                for cut in (h, -h):
+                    for axis in range(nd):
+                        dim = ['epoch', 'channel', 'time'][3 - nd + axis]
+                        yield self.split_case(self.mk_arr([2] * nd, s0=5, fs=(432, 1)), axis, dim, [cut], None)
+
+        # ---- item 5: histories.  The same array indexed twice (same result, source untouched), the source looked at
+        # after a whole chain, split -> concat -> split elsewhere -> concat, the same pieces concatenated twice,
+        # a concat of one piece, concat results concatenated further (nested).
+        nrep = 400 if quick else 10000
+        for _ in range(nrep):
+            arr = self.rand_arr(rng)
+            idx = self.rand_index(rng, arr['shape'])
+            ops = [get(idx, 0, 1), get(copy.deepcopy(idx), 0, 2), show(0)]
+            if self.ref_shape(arr['shape'], idx) and canonical_after(len(arr['shape']), idx):
+                ops += [{'op': 'fin', 'k': 1, 'j': 3, 'how': rng.choice(sorted(FIN))}, show(1), show(0)]
+            yield {'kind': 'repeat', 'arrs': [arr], 'ops': ops}
+        nres = 300 if quick else 10000
+        for _ in range(nres):
+            arr = self.rand_arr(rng, maxn=6)
+            nd = len(arr['shape'])
+            axis = rng.randrange(nd)
+            dim = ['epoch', 'channel', 'time'][3 - nd + axis]
+            n = arr['shape'][axis]
+            c = self.split_case(arr, axis, dim, sorted(rng.randint(0, n) for _ in range(rng.randint(0, 2))), None)
+            ks = c['ops'][-1]['ks']
+            how = rng.choice(['twice', 'resplit', 'nested', 'single'])
+            if how == 'twice':
+                c['ops'] += [{'op': 'concat', 'j': 31, 'dim': dim, 'ks': ks, 'expect': 'restore:0'}] + [show(k) for k in ks] + [show(0)]
+            elif how == 'resplit':
+                k2 = rng.randint(-n - 1, n + 1)
+                lead = [FULL] * axis
+                mk = lambda it: {'t': 'tup', 'items': ([E_] if dim == 'time' else lead) + [it]}
+                c['ops'] += [get(mk(sl(None, k2)), 30, 40), get(mk(sl(k2, None)), 30, 41),
+                             {'op': 'concat', 'j': 42, 'dim': dim, 'ks': [40, 41], 'expect': 'restore:0'}, show(30), show(0)]
+            elif how == 'nested' and len(ks) >= 3:
+                c['ops'][-1] = {'op': 'concat', 'j': 28, 'dim': dim, 'ks': ks[:2], 'expect': None}
+                c['ops'] += [{'op': 'concat', 'j': 29, 'dim': dim, 'ks': ks[2:], 'expect': None},
+                             {'op': 'concat', 'j': 30, 'dim': dim, 'ks': [28, 29], 'expect': 'restore:0'}]
+            else:
+                c['ops'] += [{'op': 'concat', 'j': 31, 'dim': dim, 'ks': [30], 'expect': 'restore:0'},
+                             {'op': 'concat', 'j': 32, 'dim': dim, 'ks': [0], 'expect': 'restore:0'}]
+            c['kind'] = 'history-' + how
+            yield c
+
+        # ---- item 6: the caller overwrites, in place, the label list / metadata list of one array; every other array
+        # derived from the same data (parent, sibling, copy, concat result, concat input) keeps its annotations.
+        derivs = [('slice', tup(E_, sl(None, 2))), ('full', tup(E_)), ('fullslice', {'t': 'one', 'items': [sl()]}),
+                  ('list', None), ('strided', tup(E_, sl(None, None, 2)))]
+        for nd in (2, 3):
+            shape = [3, 2, 4][-nd:]
+            fields = [('ch', ['zz'] * shape[-2])] + ([('md', [55] * shape[0])] if nd == 3 else [])
+            for field, val in fields:
+                for name, idx in derivs:
+                    if idx is None:
+                        idx = {'t': 'one', 'items': [['L', list(range(shape[0]))]]}
+                    n1 = self.ref_shape(shape, idx)
+                    v1 = ['zz'] * n1[-2] if field == 'ch' else [55] * n1[0]
+                    for how in ('copy', 'add', 'astype', 'view', 'deepcopy'):
+                        arr = self.mk_arr(shape, s0=5, fs=(432, 1), md0=3)
+                        # derived array overwritten -> parent, a second derivation and a copy untouched
+                        yield {'kind': 'isolation', 'arrs': [arr], 'ops': [
+                            get(idx, 0, 1), get(copy.deepcopy(idx), 0, 2), {'op': 'fin', 'k': 0, 'j': 3, 'how': how},
+                            {'op': 'set', 'k': 1, 'field': field, 'value': v1, 'inplace': True},
+                            show(0), show(2), show(3)]}
+                        # parent overwritten -> derived arrays untouched
+                        yield {'kind': 'isolation', 'arrs': [arr], 'ops': [
+                            get(idx, 0, 1), {'op': 'fin', 'k': 0, 'j': 3, 'how': how}, {'op': 'fin', 'k': 1, 'j': 4, 'how': how},
+                            {'op': 'set', 'k': 0, 'field': field, 'value': val, 'inplace': True},
+                            show(1), show(3), show(4)]}
+                # concat result overwritten -> its inputs untouched and still restore the original; input overwritten ->
+                # result untouched
+                for axis in range(nd):
+                    dim = ['epoch', 'channel', 'time'][3 - nd + axis]
+                    arr = self.mk_arr(shape, s0=5, fs=(432, 1), md0=3)
+                    c = self.split_case(arr, axis, dim, [1], None)
+                    c['kind'] = 'isolation'
+                    c['ops'] += [{'op': 'set', 'k': 30, 'field': field, 'value': val, 'inplace': True}, show(1), show(2), show(0),
+                                 {'op': 'concat', 'j': 31, 'dim': dim, 'ks': [1, 2], 'expect': 'restore:0'}]
+                    yield c
+                    c = self.split_case(arr, axis, dim, [1], None)
+                    c['kind'] = 'isolation'
+                    sh1 = list(shape)
+                    sh1[axis] = 1
+                    v1 = ['zz'] * sh1[-2] if field == 'ch' else [55] * sh1[0]
+                    c['ops'] += [{'op': 'set', 'k': 1, 'field': field, 'value': v1, 'inplace': True}, show(30), show(2), show(0)]
+                    yield c
+
+        # ---- item 1 (deterministic part): the select expressions with NumPy scalars as list elements / slice bounds and
+        # integer ndarrays of every integer dtype; every constructor / concat spelling on a split + concat program
+        for nd, axis in [(2, 0), (3, 1), (3, 0)]:
+            shape = [2] * nd
+            shape[axis] = 3
+            shape[-1] = 3
+            its = [['B', [1, 0, 1]], ['B', [0, 0, 1]], ['B', [1, 1, 1]], ['B', [0, 0, 0]], ['L', [2, 0]], ['L', [-1]], ['L', [1, 1, 2]],
+                   ['s', 1, None, None], ['s', -2, 5, 2]]
+            reps = [{'npint': True}]
+            for it in its + [['A', [2, 0]], ['A', [1]], ['A', []], ['A', [0, 1, 2]]]:
+                if it[0] == 'A':
+                    reps = [{'adt': dt} for dt in self.REPS['adt']]
+                for p_ in self.positions(nd, axis, it):
+                    for rep in reps:
+                        yield {'kind': 'repr-fixed', 'arrs': [self.mk_arr(shape, s0=5, fs=(27 * 64, 1))], 'ops': [get(p_)], 'rep': dict(rep)}
+        for nd in (1, 2, 3):
+            for axis in range(nd):
+                dim = ['epoch', 'channel', 'time'][3 - nd + axis]
+                for key in sorted(self.REPS):
+                    for val in self.REPS[key]:
+                        c = self.split_case(self.mk_arr([2, 3, 4][-nd:], s0=rng.choice([0, 5, -7]), fs=(432, 1)), axis, dim, [1, 2], None)
+                        c['ops'] += [show(0), show(1)]
+                        c['kind'], c['rep'] = 'repr-fixed', {key: val}
+                        yield c
+
+        # ---- item 7: two arrays that differ in exactly one parameter, built one after the other, same expressions
+        npair = 300 if quick else 8000
+        for _ in range(npair):
+            a = self.rand_arr(rng)
+            b = copy.deepcopy(a)
+            nd = len(a['shape'])
+            what = rng.choice(['s0', 'fs', 'ch', 'md', 'base'])
+            if what == 's0':
+                b['s0'] = a['s0'] + rng.choice([1, -1, 1000])
+            elif what == 'fs':
+                b['fs'] = [a['fs'][0] * 2, a['fs'][1]]
+            elif what == 'ch':
+                b['ch'] = (None if a['ch'] else 'q') if nd == 1 else [(x or 'n') + 'x' for x in a['ch']]
+            elif what == 'md':
+                b['md'] = a['md'] + 20 if nd < 3 else [v + 20 for v in a['md']]
+            else:
+                b['base'] = a['base'] + 50
+            idx = self.rand_index(rng, a['shape'])
+            ops = [get(idx, 0, 2), get(copy.deepcopy(idx), 1, 3), show(0), show(1)]
+            if rng.random() < 0.5:
+                ops.insert(2, {'op': 'fin', 'k': 1, 'j': 5, 'how': rng.choice(sorted(FIN))})
+            yield {'kind': 'pair', 'arrs': [a, b], 'ops': ops}
+
+    @staticmethod
+    def positions(nd, axis, it):
+        """the syntactic positions in which `it` can address `axis` of an nd-array."""
+        out = []
+
+        lead = [FULL] * axis
+        if axis == 0:
+            out.append({'t': 'one', 'items': [it]})
+        out.append({'t': 'tup', 'items': lead + [it]})
+        out.append({'t': 'tup', 'items': lead + [it] + [FULL] * (nd - axis - 1)})
+        out.append({'t': 'tup', 'items': [['e'], it] + [FULL] * (nd - axis - 1)})
+        if axis < nd - 1:
+            out.append({'t': 'tup', 'items': lead + [it, ['e']]})
+        seen, res = set(), []
+        for o in out:
+            key = enc_index(o)
+            if key not in seen:
+                seen.add(key)
+                res.append(o)
+        return res
+
+    def base_cases(self, rng, tier):
         quick = tier == 'quick'
         N = 3 if quick else 4
         B = 5 if quick else 7
@@ -481,24 +832,7 @@ class C11(Spec):
         bounds = [None] + list(range(-B, B + 1))
         get = lambda idx, k=0, j=1: {'op': 'get', 'k': k, 'j': j, 'idx': idx}
 
-        def positions(nd, axis, it):
-            """the syntactic positions in which `it` can address `axis` of an nd-array."""
-            out = []
-            lead = [FULL] * axis
-            if axis == 0:
-                out.append({'t': 'one', 'items': [it]})
-            out.append({'t': 'tup', 'items': lead + [it]})
-            out.append({'t': 'tup', 'items': lead + [it] + [FULL] * (nd - axis - 1)})
-            out.append({'t': 'tup', 'items': [['e'], it] + [FULL] * (nd - axis - 1)})
-            if axis < nd - 1:
-                out.append({'t': 'tup', 'items': lead + [it, ['e']]})
-            seen, res = set(), []
-            for o in out:
-                key = enc_index(o)
-                if key not in seen:
-                    seen.add(key)
-                    res.append(o)
-            return res
+        positions = self.positions
 
         # (i) slices on every axis, exhaustive small scope
         s0s = [-7, 0, 5]
@@ -595,8 +929,10 @@ class C11(Spec):
                 k += 1
                 shape = new
                 if rng.random() < 0.25:
-                    ops.append({'op': 'fin', 'k': k, 'j': k + 1, 'how': rng.choice(['add', 'mul', 'neg', 'copy', 'astype', 'gt', 'abs', 'self'])})
+                    ops.append({'op': 'fin', 'k': k, 'j': k + 1, 'how': rng.choice(FIN_OLD if rng.random() < 0.5 else sorted(FIN))})
                     k += 1
+            if rng.random() < 0.3:
+                ops.append({'op': 'show', 'k': 0})
             yield {'kind': 'chain', 'arrs': [arr], 'ops': ops}
 
         # random slice-then-concat programs (pieces from unit-step cuts, possibly nested)
@@ -642,7 +978,7 @@ class C11(Spec):
 
         # arithmetic / copies on fresh arrays
         for nd in (1, 2, 3):
-            for how in ['add', 'mul', 'neg', 'copy', 'astype', 'gt', 'abs', 'self']:
+            for how in FIN_OLD + sorted(set(FIN) - set(FIN_OLD)):
                 arr = self.mk_arr([3, 2, 4][-nd:], s0=-7, fs=(864, 1), md0=3)
                 yield {'kind': 'finalize', 'arrs': [arr], 'ops': [{'op': 'fin', 'k': 0, 'j': 1, 'how': how}]}
 
@@ -731,6 +1067,52 @@ class C11(Spec):
         return lines
 
     # ---- implementation side ---------------------------------------------
+    @staticmethod
+    def build(P, a, rep):
+        """PipelineData(...) for the array description `a`; `rep` = another spelling of the same arguments."""
+        mkmd = lambda m: [{'i': v} for v in m] if isinstance(m, list) else {'i': m}
+        n = int(np.prod(a['shape'])) if a['shape'] else 1
+        dt = rep.get('dtype') or float
+        data = (a['base'] + np.arange(n)).astype(dt).reshape(a['shape'])
+        order = rep.get('order')
+        if order == 'F':
+            data = np.asfortranarray(data)
+        elif order == 'strided':
+            # every second element of a buffer twice as long on the last axis
+            big = np.zeros(tuple(a['shape'][:-1]) + (2 * a['shape'][-1] + 1,), dtype=data.dtype) - 1
+            big[..., 1::2] = data
+            data = big[..., 1::2]
+        elif order == 'rev':
+            data = data[..., ::-1].copy()[..., ::-1]       # negative stride on the time axis
+        elif order == 'list' and 0 not in a['shape'][:-1]:
+            data = data.tolist()
+        ch = list(a['ch']) if isinstance(a['ch'], list) else a['ch']
+        if rep.get('chtuple') and isinstance(ch, list):
+            ch = tuple(ch)
+        fs = a['fs'][0] / a['fs'][1]
+        fr = rep.get('fsrep')
+        if fr == 'int' and a['fs'][1] == 1:
+            fs = int(a['fs'][0])
+        elif fr == 'np64':
+            fs = np.float64(fs)
+        elif fr == 'np32':
+            fs = np.float32(fs)
+        s0 = np.int64(a['s0']) if rep.get('s0rep') == 'np64' else a['s0']
+        md = mkmd(a['md'])
+        ctor = rep.get('ctor')
+        if ctor == 'pos':
+            return P.PipelineData(data, fs, s0, ch, md)
+        if ctor == 'defaults':
+            kw = {'metadata': md}
+            if a['s0'] != 0:
+                kw['s0'] = s0
+            if not (ch is None or (isinstance(ch, (list, tuple)) and all(x is None for x in ch))):
+                kw['channel'] = ch
+            return P.PipelineData(data, fs, **kw)
+        if ctor == 'kw':
+            return P.PipelineData(arr=data, metadata=md, channel=ch, s0=s0, fs=fs)
+        return P.PipelineData(data, fs=fs, s0=s0, channel=ch, metadata=md)
+
     def impl_lines(self, c):
         from psiaudio import pipeline as P
         regs, out = {}, []
@@ -738,11 +1120,9 @@ class C11(Spec):
         def mkmd(m):
             return [{'i': v} for v in m] if isinstance(m, list) else {'i': m}
 
+        rep = c.get('rep') or {}
         for k, a in enumerate(c['arrs']):
-            n = int(np.prod(a['shape'])) if a['shape'] else 1
-            data = (a['base'] + np.arange(n, dtype=float)).reshape(a['shape'])
-            ch = list(a['ch']) if isinstance(a['ch'], list) else a['ch']
-            regs[k] = P.PipelineData(data, fs=a['fs'][0] / a['fs'][1], s0=a['s0'], channel=ch, metadata=mkmd(a['md']))
+            regs[k] = self.build(P, a, rep)
             out.append(canon_pd(regs[k]))
         for op in c['ops']:
             try:
@@ -750,7 +1130,11 @@ class C11(Spec):
                     if op['k'] not in regs:
                         out.append('err no-register')
                         continue
-                    r = regs[op['k']][py_index(op['idx'])]
+                    ix = py_index(op['idx'], rep)
+                    r = regs[op['k']][ix]
+                    if not same_index(ix, py_index(op['idx'], rep)):
+                        out.append('arg-modified: the index object passed to __getitem__ was changed')
+                        continue
                     if isinstance(r, P.PipelineData):
                         regs[op['j']] = r
                         out.append(canon_pd(r))
@@ -762,9 +1146,7 @@ class C11(Spec):
                         continue
                     a = regs[op['k']]
                     how = op['how']
-                    r = {'add': lambda: a + 1, 'mul': lambda: a * 2.0, 'neg': lambda: -a, 'copy': lambda: a.copy(),
-                         'astype': lambda: a.astype('int'), 'gt': lambda: a > 3, 'abs': lambda: np.abs(a),
-                         'self': lambda: a + a}[how]()
+                    r = FIN[how](a)
                     out.append(canon_pd(r, data=False))
                     # keep index-valued data for the rest of the chain; the annotations are those of the result
                     r2 = np.asarray(a).copy().view(P.PipelineData)
@@ -779,11 +1161,25 @@ class C11(Spec):
                         a.s0 = a.s0 + op['delta']
                     elif op['field'] == 'fs':
                         a.fs = op['value'][0] / op['value'][1]
+                    elif op['field'] == 'ch' and op.get('inplace'):
+                        # the caller overwrites the labels of THIS array's channel list in place
+                        if not isinstance(a.channel, list) or len(a.channel) != len(op['value']):
+                            out.append('err harness-inplace-shape')
+                            continue
+                        for i, v in enumerate(op['value']):
+                            a.channel[i] = v
                     elif op['field'] == 'ch':
                         a.channel = list(op['value']) if isinstance(op['value'], list) else op['value']
+                    elif op.get('inplace') and isinstance(op['value'], list):
+                        # the caller overwrites the entries of the metadata LIST of this array in place
+                        if not isinstance(a.metadata, list) or len(a.metadata) != len(op['value']):
+                            out.append('err harness-inplace-shape')
+                            continue
+                        for i, v in enumerate(op['value']):
+                            a.metadata[i] = {'i': v}
                     elif op.get('inplace'):
                         # the caller tags this piece through the public API (in-place update of ITS metadata)
-                        a.add_metadata('i', op['value'][0] if isinstance(op['value'], list) else op['value'])
+                        a.add_metadata('i', op['value'])
                     else:
                         a.metadata = mkmd(op['value'])
                     out.append(canon_pd(a))
@@ -793,7 +1189,26 @@ class C11(Spec):
                     if any(k not in regs for k in op['ks']):
                         out.append('err no-register')
                         continue
-                    r = P.concat([regs[k] for k in op['ks']], axis={'time': -1, 'channel': -2, 'epoch': -3}[op['dim']])
+                    pieces = [regs[k] for k in op['ks']]
+                    sig = lambda q: (q.shape, q.s0, q.fs, repr(q.channel), repr(q.metadata), q.dtype.str, np.asarray(q).tobytes())
+                    before = [sig(p_) for p_ in pieces]
+                    seq = tuple(pieces) if rep.get('seq') == 'tuple' else list(pieces)
+                    ax = rep.get('axis')
+                    try:
+                        if ax == 'name':
+                            r = P.concat(seq, axis=op['dim'])
+                        elif ax == 'default' and op['dim'] == 'time':
+                            r = P.concat(seq)
+                        elif ax == 'pos':
+                            r = P.concat(seq, {'time': -1, 'channel': -2, 'epoch': -3}[op['dim']])
+                        else:
+                            r = P.concat(seq, axis={'time': -1, 'channel': -2, 'epoch': -3}[op['dim']])
+                    finally:
+                        after = [sig(p_) for p_ in pieces]
+                        same_seq = len(seq) == len(pieces) and all(x is y for x, y in zip(seq, pieces))
+                    if before != after or not same_seq:
+                        out.append('arg-modified: concat changed the arrays it was given')
+                        continue
                     regs[op['j']] = r
                     out.append(canon_pd(r))
             except Exception as e:
@@ -826,6 +1241,8 @@ class C11(Spec):
             line = out[na + n]
             if line.startswith('HARNESS-EXC'):
                 return line
+            if line.startswith('arg-modified'):
+                return f'op {n}: {line}'
             pre = regs.get(op.get('k'))
             if op['op'] == 'get':
                 if pre is None:
@@ -993,6 +1410,10 @@ class C11(Spec):
     def describe(self, c):
         a = c['arrs'][0]
         s = f"x = PipelineData(shape {a['shape']}, fs={a['fs'][0]}/{a['fs'][1]}, s0={a['s0']}, channel={a['ch']}, metadata ids {a['md']}); "
+        for k, b in enumerate(c['arrs'][1:]):
+            s += f"r{k + 1} = PipelineData(shape {b['shape']}, fs={b['fs'][0]}/{b['fs'][1]}, s0={b['s0']}, channel={b['ch']}, metadata ids {b['md']}); "
+        if c.get('rep'):
+            s = f"[arguments spelled as {c['rep']}] " + s
         parts = []
         for op in c['ops']:
             if op['op'] == 'get':
@@ -1000,7 +1421,10 @@ class C11(Spec):
             elif op['op'] == 'fin':
                 parts.append(f"r{op['j']} = {op['how']}(r{op['k']})")
             elif op['op'] == 'set':
-                if op.get('inplace'):
+                if op.get('inplace') and (op['field'] == 'ch' or isinstance(op['value'], list)):
+                    attr = 'channel' if op['field'] == 'ch' else 'metadata'
+                    parts.append(f"r{op['k']}.{attr}[i] = {op['value']}[i] for every i (in place)")
+                elif op.get('inplace'):
                     parts.append(f"r{op['k']}.add_metadata('i', {op['value']})")
                 else:
                     parts.append(f"r{op['k']}.{op['field']} {'+=' if 'delta' in op else '='} {op.get('delta', op.get('value'))}")
